@@ -720,8 +720,17 @@ impl Xot {
             filter(node)
         };
 
-        let mut edges_a = self.traverse(a).filter(filter_edge);
-        let mut edges_b = self.traverse(b).filter(filter_edge);
+        // attribute and namespace nodes are not visited by traverse; they are
+        // leaves that have to be compared by value like any other node
+        let edges = |node: Node| -> Box<dyn Iterator<Item = NodeEdge> + '_> {
+            if self.value(node).is_normal() {
+                Box::new(self.traverse(node))
+            } else {
+                Box::new([NodeEdge::Start(node), NodeEdge::End(node)].into_iter())
+            }
+        };
+        let mut edges_a = edges(a).filter(filter_edge);
+        let mut edges_b = edges(b).filter(filter_edge);
         for edge_pair in edges_a.by_ref().zip(edges_b.by_ref()) {
             match edge_pair {
                 (NodeEdge::Start(a), NodeEdge::Start(b)) => {
